@@ -66,6 +66,8 @@ def classify_call(call):
         return None
     if d in ALWAYS_DESTRUCTIVE or d.split(".")[-1] in ALWAYS_DESTRUCTIVE_TAILS:
         return ("always", call.args[0] if call.args else None, None)
+    if d == "os.open" and len(call.args) >= 2:
+        return ("osopen", call.args[0], call.args[1])
     for tail, (pos, kw, default) in MODE_OPENERS.items():
         if d == tail or d.endswith("." + tail):
             if tail == "open" and d != "open" and not d.endswith("hoomd.open") and not d.endswith("io.open"):
@@ -96,18 +98,44 @@ def _scope(ctx):
     return files
 
 
+PATH_PRESERVING = ("str", "os.fspath", "os.path.abspath", "os.path.expanduser", "os.path.realpath", "os.path.normpath", "bytes", "os.fsencode", "os.fsdecode")
+
+
+def _same_path(e, al):
+    """Does expression e denote the same path as one of the aliases (value-preserving wrappers only)?"""
+    d = dotted(e)
+    if d is not None:
+        return d in al
+    if isinstance(e, ast.Call) and call_name(e) in PATH_PRESERVING and e.args:
+        return _same_path(e.args[0], al)
+    if isinstance(e, ast.Call) and isinstance(e.func, ast.Attribute) and e.func.attr in ("encode", "decode") and not e.args:
+        return _same_path(e.func.value, al)
+    return False
+
+
 def _path_aliases(fn):
-    """Names that hold the user's path inside a constructor."""
+    """Names that hold exactly the user's path inside a constructor (str()/fspath() wrappers allowed;
+    lower(), basename(), formatting ... produce a *different* path and are not aliases)."""
     al = set()
     ps = params(fn)
     for p in ps:
         if p in ("filename", "file", "fname", "path", "filenames"):
             al.add(p)
-    for n in walk_no_nested(fn):
-        if isinstance(n, ast.Assign) and len(n.targets) == 1:
-            t = dotted(n.targets[0])
-            if t and (names_of(n.value) & al):
-                al.add(t)
+    changed = True
+    while changed:
+        changed = False
+        for n in walk_no_nested(fn):
+            if isinstance(n, ast.Assign) and len(n.targets) == 1:
+                t = dotted(n.targets[0])
+                if t and t not in al and _same_path(n.value, al):
+                    al.add(t)
+                    changed = True
+            # C string copy in the Cython constructors:  strcpy(self.filename, filename)
+            if isinstance(n, ast.Call) and call_name(n) in ("strcpy", "strncpy") and len(n.args) >= 2:
+                t = dotted(n.args[0])
+                if t and t not in al and _same_path(n.args[1], al):
+                    al.add(t)
+                    changed = True
     return al
 
 
@@ -142,7 +170,7 @@ def make_atom_of(aliases):
             return "force"
         if isinstance(e, ast.Call):
             d = call_name(e)
-            if d in EXISTS_FUNCS and e.args and (names_of(e.args[0]) & aliases):
+            if d in EXISTS_FUNCS and e.args and _same_path(e.args[0], aliases):
                 return "exists"
         v = _mode_value(e)
         if v is not None:
@@ -152,7 +180,7 @@ def make_atom_of(aliases):
 
 
 def _feasible(world):
-    modes = [k[1] for k, v in world.items() if isinstance(k, tuple) and k[0] == "mode" and v]
+    modes = [k[1] for k, v in world.items() if isinstance(k, tuple) and k[0] == "mode" and len(k) == 2 and v]
     return len(set(modes)) <= 1
 
 
@@ -167,10 +195,23 @@ def _transfer_factory(cfg):
                     w.pop("force", None)
                 if d in ("mode", "self.mode", "self._mode") and not (
                         isinstance(st, ast.Assign) and d != "mode" and dotted(st.value) == "mode"):
-                    for k in [k for k in w if isinstance(k, tuple)]:
+                    for k in [k for k in w if isinstance(k, tuple) and k[0] == "mode"]:
                         w.pop(k)
                 if d in ("filename",):
                     w.pop("exists", None)
+                if d and d.endswith("flags"):
+                    txt = src(st.value)
+                    if isinstance(st, ast.Assign):
+                        w[("flag", d, "excl")] = "O_EXCL" in txt
+                        w[("flag", d, "trunc")] = "O_TRUNC" in txt
+                        w[("flag", d, "write")] = any(f in txt for f in ("O_WRONLY", "O_RDWR", "O_CREAT", "O_APPEND"))
+                    else:
+                        if "O_EXCL" in txt:
+                            w[("flag", d, "excl")] = True
+                        if "O_TRUNC" in txt:
+                            w[("flag", d, "trunc")] = True
+                        if any(f in txt for f in ("O_WRONLY", "O_RDWR", "O_CREAT", "O_APPEND")):
+                            w[("flag", d, "write")] = True
         return w
     return transfer
 
@@ -185,13 +226,22 @@ def world_mode_is_write(world, mode_expr):
     d = dotted(mode_expr)
     if d in ("mode", "self.mode", "self._mode"):
         for k, v in world.items():
-            if isinstance(k, tuple) and k[0] == "mode":
+            if isinstance(k, tuple) and k[0] == "mode" and len(k) == 2:
                 if k[1] == "w" and v is False:
                     return False
                 if v is True:
                     return k[1] == "w"
         return True
     return True  # unknown expression: conservatively a write
+
+
+def osopen_flags(world, flags_expr):
+    """(write?, excl?, trunc?) of an os.open flags expression in this world."""
+    d = dotted(flags_expr)
+    txt = src(flags_expr)
+    if d and ("flag", d, "write") in world:
+        return world[("flag", d, "write")], world.get(("flag", d, "excl"), False), world.get(("flag", d, "trunc"), False)
+    return (any(f in txt for f in ("O_WRONLY", "O_RDWR", "O_CREAT", "O_APPEND")), "O_EXCL" in txt, "O_TRUNC" in txt)
 
 
 def world_guarded(world):
@@ -297,6 +347,15 @@ def check(ctx):
                 continue
             if c[0] == "mode":
                 wr = [w for w in worlds if world_mode_is_write(w, c[2])]
+            elif c[0] == "osopen":
+                wr = [w for w in worlds if osopen_flags(w, c[2])[0]]
+                # O_EXCL makes the OS refuse an existing path: as good as the explicit guard
+                notrunc = [w for w in wr if not osopen_flags(w, c[2])[1] and not osopen_flags(w, c[2])[2]]
+                ctx.decide(not notrunc, "C20-R3", n, rel, q, "os.open flags truncate or create exclusively",
+                           "every write-mode world has O_TRUNC or O_EXCL",
+                           "os.open for writing without O_TRUNC (world %s): with force_overwrite=True a longer existing file keeps its tail "
+                           "(old content partly retained)" % (_fmt_world(notrunc[0]) if notrunc else ""))
+                wr = [w for w in wr if not osopen_flags(w, c[2])[1]]
             else:
                 wr = worlds
             if not wr:
@@ -615,6 +674,8 @@ def _allowed_modes(fn):
 def _modestr(c):
     if c[0] == "always":
         return "destroy"
+    if c[0] == "osopen":
+        return "flags=" + src(c[2])
     m = const(c[2])
     if isinstance(m, bytes):
         m = m.decode()
@@ -624,4 +685,5 @@ def _modestr(c):
 def _fmt_world(w):
     if not w:
         return "{nothing known}"
-    return "{" + ", ".join("%s=%s" % (k if isinstance(k, str) else "mode==%r" % k[1], v) for k, v in sorted(w.items(), key=str)) + "}"
+    return "{" + ", ".join("%s=%s" % (k if isinstance(k, str) else ("mode==%r" % k[1] if len(k) == 2 else ".".join(k[1:])), v)
+                           for k, v in sorted(w.items(), key=str)) + "}"
